@@ -98,11 +98,21 @@ def run(run):
 
 def geometry_premises(sub):
     """C08.R4 (tiling geometry, including 'a sub-image tiling shares its parent's padded square and levels') for use as a premise elsewhere."""
-    ev = sym.make_evaluator(sub.project, ST, [], inline_local=True, no_inline=("next_highest_power_of_2",))
-    ev.self_class = ST + ".StudyTiling"
+    ev = _study_evaluator(sub.project)
     fields_a, fields_b = _object_states(sub, ev)
     if fields_a is not None:
         _r4_geometry(sub, ev, fields_a, fields_b)
+
+
+def _study_evaluator(project):
+    ev = sym.make_evaluator(project, ST, [], inline_local=True, no_inline=("next_highest_power_of_2",))
+    ev.self_class = ST + ".StudyTiling"
+    ev.inline_resolved = True       # methods called on the freshly built sub-tiling object belong to compute_for_subimage
+    ev.no_inline = tuple(ev.no_inline) + ("next_highest_power_of_2", "generate_populated_positions", "count_populated_positions", "tile_image",
+                                           "apply_to_imageset", "image_to_tile", "write_image", "read_image", "update_image", "make_maskable_buffer", "clear",
+                                           "update_into_maskable_buffer", "fill_into_maskable_buffer", "asarray", "get_default_vertical_parity_sign",
+                                           "get_default_format", "get_parity_sign", "flip_parity", "tile_path")
+    return ev
 
 
 SELF = ("sym", "self")
